@@ -8,6 +8,7 @@
 (*   decl   the DECLARED structure, computed by the generator from its own  *)
 (*          description of the program (never from hypergraph):            *)
 (*            nodes  [id, parent, kind]   kind in function | gate | graph   *)
+(*                   (ins, outs: port names, only to name witness classes)  *)
 (*            deps   [p, c, kind, val, grp, src, via, rin, rout]             *)
 (*                   p = producer LEAF id, c = consumer id (a leaf; for a   *)
 (*                   control dependency the gate's target, which may be a   *)
